@@ -126,7 +126,7 @@ static rc::Gen<Case> genCase() {
     return rc::gen::exec([]() {
         Case c;
         c.serial = *rc::gen::arbitrary<bool>(); c.mem16 = *rc::gen::arbitrary<bool>(); c.chunk_src = *rc::gen::arbitrary<bool>(); c.chunk_snk = *rc::gen::arbitrary<bool>();
-        c.extra = *rc::gen::weightedOneOf<uint32_t>({{2, rc::gen::just<uint32_t>(0)}, {1, vprc::uni<uint32_t>(0, 3)}, {2, vprc::uni<uint32_t>(0, 40)}});
+        c.extra = *rc::gen::weightedOneOf<uint32_t>({{4, rc::gen::just<uint32_t>(0)}, {2, vprc::uni<uint32_t>(0, 3)}, {4, vprc::uni<uint32_t>(0, 40)}, {1, rc::gen::element<uint32_t>(65300u, 65436u, 65500u, 65535u, 65536u, 70000u, 131000u, 131072u)}});   // the last group: allocator blocks beyond 64 KiB, sized so that the room for a read answer lies just across a multiple of 2^16
         size_t nf = *vprc::uni<size_t>(1, 8);
         bool mem16 = c.mem16;
         c.frames = *rc::gen::container<std::vector<Spec>>(nf, rc::gen::exec([mem16]() {
@@ -156,7 +156,7 @@ static std::string oracle(const Case &c) {
     return key;
 }
 static void run() {
-    vp::stats().rule = "rc: sessions of 1..8 frames on one RegP instance (serial/tcp x 8/16-bit memory x octet/chunk endpoints x receive blocks exactly as large as the largest frame/answer needs, +0..40 octets; requests also with non-canonical checksum option bits): requests of all four kinds "
+    vp::stats().rule = "rc: sessions of 1..8 frames on one RegP instance (serial/tcp x 8/16-bit memory x octet/chunk endpoints x receive blocks exactly as large as the largest frame/answer needs, +0..40 octets or beyond 64 KiB / 128 KiB; requests also with non-canonical checksum option bits): requests of all four kinds "
                        "incl. word-size mismatches, block sizes 0..200, payloads rich in SLIP control octets, every back-end verdict (12 codes + address), interleaved response and meta frames and frames damaged on the way (checksum fields off by bits or forced to 0x0000/0xffff, payload one octet short/long: must not reach the back-end); "
                        "oracle = recording back-end (calls, arguments, payload) + reference decoder on the sink octets + allocation ledger";
     vprc::check<Case>("requests are executed once and answered faithfully", genCase(), oracle, ser_case);
